@@ -42,8 +42,8 @@ CHECKS = {
         text="Seeded single-run histories (bytecode caching off) over look-alike package names, nested/overlapping hooks, with-blocks, double uninstall, pytest entry point, concurrent imports from 2-3 baton-scheduled threads, and notebook histories in a real in-process IPython shell (%load_ext, %jaxtyping.typechecker, defining cells, import cells); oracle: module instrumented iff covered by an active hook at first import, checker in the covering hooks' checkers, nothing instrumented after uninstall.",
         note="The IPython magic is driven through an in-process InteractiveShell, not a Jupyter kernel. Spy typecheckers are stubs; importlib, IPython and the hook are real."),
     "C01": dict(
-        engine="ctxsim", cat="exploration", technique="deterministic simulation: seeded check histories against an executable reference model of the dim-string semantics, step-wise refinement from the observed pre-state",
-        text="Seeded histories of array checks (incl. rejected and raising ones) inside nested contexts; the model is re-synchronised from the observed bindings before each check and predicts an outcome set and post-state; implementation outcome must be in the set and bindings must equal the model's.",
+        engine="ctxsim", cat="exploration", technique="deterministic simulation: seeded check histories against an executable reference model of the dim-string semantics, step-wise refinement from the observed pre-state plus an open-loop history shadow",
+        text="Seeded histories of array checks (incl. rejected and raising ones) inside nested contexts; the model is re-synchronised from the observed bindings before each check and predicts an outcome set and post-state; implementation outcome must be in the set and bindings must equal the model's; an open-loop shadow (bindings implied by the accepted checks of the block) must allow the same verdict.",
         note="Deciding dimension is the history (state), not schedule/fault. The reference model (~300 lines) is trusted; unspecified corners are outcome sets."),
     "C02": dict(
         engine="ctxsim", cat="exploration", technique="deterministic simulation: seeded call families (parameter permutations x passing style x decorator spelling x typechecker) against a declarative satisfiability model + sibling agreement",
@@ -51,7 +51,7 @@ CHECKS = {
         note="History inside one call; model trusted; corners where the texts are silent are outcome sets."),
     "C08": dict(
         engine="ctxsim", cat="exploration", technique="deterministic simulation: seeded histories of PyTree checks against a reference tree model with fault stress at flatten/leaf call-outs",
-        text="Trees over tuple/list/dict/None/namedtuple/registered nodes, leaf types incl. arrays sharing bindings; outcome in model set, bindings = model's, laws PyTree[L] = PyTree[PyTree[L]], bare PyTree, top-level None as sibling ops.",
+        text="Trees over tuple/list/dict/None/namedtuple/registered nodes, leaf types incl. arrays sharing bindings; outcome in model set, bindings = model's, open-loop history shadow, laws PyTree[L] = PyTree[PyTree[L]], bare PyTree, top-level None as sibling ops.",
         note="Model trusted; jax.tree_util flatten is real."),
     "C09": dict(
         engine="ctxsim", cat="exploration", technique="deterministic simulation: seeded histories over structure bindings against a reference structure algebra (compose/prefix/suffix)",
